@@ -158,12 +158,16 @@ theorem serialSend_wf (d : Driver) (c : Cmd) :
     · obtain ⟨x, hx⟩ := serialSendBody_edt d c [Act.rel] none (Or.inl h)
       simp [edtOK, edtSeg, edtSeg_append, hx]
   · simp only [h, if_false, List.append_assoc]
+    have hpf : wfSeg false loopHead (prefixFlush d) = some loopHead := by
+      unfold prefixFlush; split <;> simp [wfSeg, stepOK, Act.canRaise, Act.canComm, Act.eff, loopHead]
+    have hpe : ∀ prev, edtSeg prev (prefixFlush d) = some prev := by
+      intro prev; unfold prefixFlush; split <;> simp [edtSeg]
     refine ⟨?_, ?_⟩
     · simp only [wf]
-      rw [hpre, wfSeg_append, serialCommand_wf, Option.bind_some, wfSeg_append, serialSendBody_wf,
-        Option.bind_some, htail]; rfl
+      rw [hpre, wfSeg_append, hpf, Option.bind_some, wfSeg_append, serialCommand_wf, Option.bind_some,
+        wfSeg_append, serialSendBody_wf, Option.bind_some, htail]; rfl
     · obtain ⟨x, hx⟩ := serialSendBody_edt d c [Act.rel] (some (edtFrame c.frame.dt)) (Or.inr rfl)
-      simp [edtOK, edtSeg, edtSeg_append, serialCommand_edt, hx]
+      simp [edtOK, edtSeg, edtSeg_append, hpe, serialCommand_edt, hx]
 
 theorem serialSend_ok (d : Driver) (hd : d = .luba ∨ d = .sci) (c : Cmd) (exc : Bool) :
     (mkTask d (.send c exc)).ok = true := by
